@@ -166,6 +166,43 @@ def soloSched (n : Nat) : List Act := .start 0 :: (List.replicate n [Act.resp 0,
 def solo (st : List (Cid × Blk)) (rem : List Cid) (lt : LT) (key : Option Key) : Sys :=
   run (initSys st rem [lt] [key]) (soloSched (lt.length + 2))
 
+/-! ### message batching: ONE block map per wire message
+
+The real requestor hands the block map of a wire message to EVERY response in it
+(`requestmanager/server.go` processResponses -> `injest.go`: `IngestResponse(md, blocks)` with the
+message's whole block map), and the responder's message builder puts the transactions of several
+requests to one peer into one message while the network is busy.  `step (.deliver i)` is the special
+case "one response per message".  `stepB (.batch is)` delivers the oldest undelivered response of
+every request in `is` as ONE message: each of them is ingested with the UNION of their blocks. -/
+
+/-- the blocks of the wire message that carries the oldest undelivered response of each request in `is` -/
+def headBlocks (s : Sys) (is : List Nat) : List (Cid × Blk) :=
+  is.flatMap fun i =>
+    match s.chan[i]? with
+    | some (w :: _) => w.blocks
+    | _ => []
+
+/-- `deliver i`, the response being ingested with the block map `bl` of its message -/
+def deliverWith (s : Sys) (i : Nat) (bl : List (Cid × Blk)) : Sys :=
+  match s.reqs[i]?, s.chan[i]? with
+  | some r, some (w :: ws) =>
+    let (r', ev) := reqMsg r (storeOf s i) { w with blocks := bl }
+    let s0 := putStore s i r'.L.store
+    { s0 with reqs := setAt s.reqs i r', chan := setAt s.chan i ws,
+              evs := setAt s.evs i ((s.evs.getD i []) ++ ev) }
+  | _, _ => s
+
+inductive BAct where
+  | act (a : Act)
+  | batch (is : List Nat)     -- one wire message with the next response of each of these requests
+deriving Repr, DecidableEq
+
+def stepB (s : Sys) : BAct → Sys
+  | .act a => step s a
+  | .batch is => let bl := headBlocks s is; is.foldl (fun s i => deliverWith s i bl) s
+
+def runB (s : Sys) (sched : List BAct) : Sys := sched.foldl stepB s
+
 /-! ### what the property compares (per request) -/
 
 def blocksOf (evs : List Ev) : List (Cid × Path) :=
